@@ -3851,7 +3851,7 @@ fn main() {
             }
         }
         for kind in 0..3 {
-            let mut shapes = vec![(31usize, "unknown"), (32, "unknown"), (33, "unknown"), (64, "dup"), (65, "unknown"), (32, "dup"), (33, "late")];
+            let mut shapes = vec![(31usize, "unknown"), (32, "unknown"), (33, "unknown"), (64, "dup"), (65, "unknown"), (32, "dup"), (33, "late"), (17, "errs")];
             if args.thorough() {
                 shapes.extend([(256, "unknown"), (1000, "dup"), (257, "late")]);
             }
